@@ -44,17 +44,37 @@ func acceptedBuiltins() []string {
 	return ok
 }
 
+// acceptedVariants: the variants of two built-in sets (loadSet) that validation accepts
+func acceptedVariants() []string {
+	var ok []string
+	for _, b := range []string{"NetherlandsRDNewQuad", "WebMercatorQuad"} {
+		for _, v := range setVariants {
+			t, err := loadSet(b + "+" + v)
+			if err != nil {
+				continue
+			}
+			if pointindex.IsQuadTree(t) == nil {
+				ok = append(ok, b+"+"+v)
+			}
+		}
+	}
+	return ok
+}
+
 // ---------------- C03
 
 func ratOf(f float64) *big.Rat { return new(big.Rat).SetFloat64(f) }
 
 func checkC03(e *env) {
 	r := e.res
-	r.Rule = "every built-in tile matrix set that passes IsQuadTree x tile matrix ids (quick: 4 per set incl. the smallest and the largest <= 20, plus the first and the last deeper one; thorough: all) x random polygons at random places of the extent (deeper than level 32: near its lower left corner), " +
+	r.Rule = "every built-in tile matrix set that passes IsQuadTree, and every variant of NetherlandsRDNewQuad and WebMercatorQuad a caller may build and validation accepts (all matrices of twice as many tiles, tiles of 512 or 128 pixels, the first matrix dropped and the rest renumbered), x tile matrix ids (quick: 4 per set incl. the smallest and the largest <= 20, plus the first and the last deeper one; thorough: all) x random polygons at random places of the extent (deeper than level 32: near its lower left corner), " +
 		"ids requested alone and together, all flags; every returned coordinate must be bit-exactly ToGeomOrd(minX + k*span + span/2) with 0 <= k < 2^level, within the reported deviation (+2e-10 quantisation) of the ideal centre; " +
 		"quad: getQuadrantExtentAndCentroid against the model; plus the common snap stream. Non-trivial as for snap; distinct by op text."
 	accepted := acceptedBuiltins()
 	r.Notes = append(r.Notes, "built-in sets accepted by IsQuadTree: "+strings.Join(accepted, ", "))
+	variants := acceptedVariants()
+	r.Notes = append(r.Notes, "variants of built-in sets accepted by IsQuadTree (of NetherlandsRDNewQuad and WebMercatorQuad + "+strings.Join(setVariants, ", ")+"): "+strings.Join(variants, ", "))
+	accepted = append(accepted, variants...)
 	perID := e.n(40, 200)
 	for _, name := range accepted {
 		maxAll := 0
